@@ -105,6 +105,12 @@ def worker(job):
             d = dict(id=ob.oid, key=ob.oid.rsplit("#", 1)[0], func=ob.func, kind=ob.kind, label=ob.label,
                      verdict=r.verdict, solver=r.solver, time=round(r.time, 3), solvers=r.all,
                      serves=list(ob.serves), trace=ob.trace[-12:], meta=ob.meta)
+            if r.verdict == "sat" and sum(1 for x in obs if "replay_result" in x) < 3 and ob.oid.rsplit("#", 1)[0] not in cheap:
+                try:
+                    from replay import drivers
+                    d["replay_result"] = drivers.replay(ob, cls, seed)
+                except Exception as e:      # noqa
+                    d["replay_result"] = dict(confirmed=None, text="replay driver failed: %s: %s" % (type(e).__name__, e))
             if r.verdict != "unsat":
                 d["goal"] = repr(ob.goal)
                 d["model"] = model_to_dict(r.model)
@@ -275,13 +281,14 @@ def main():
             rep["replay"] = "concrete failing input found on the real code; re-run it with: %s" % o.get("replay_cmd", "(see harness)")
             rep["replay_confirmed"] = True
         else:
-            try:
-                from replay import harness
-                confirmed, text = harness.replay_obligation(a.prop, o)
-                rep["replay"] = text
+            rr = o.get("replay_result")
+            if rr is not None:
+                confirmed = rr.get("confirmed")
+                rep["replay"] = rr.get("text")
+                rep["replay_input"] = rr.get("input")
                 rep["replay_confirmed"] = confirmed
-            except Exception as e:
-                rep["replay"] = "replay unavailable: %s" % e
+            else:
+                rep["replay"] = "not attempted (more than three failing obligations of this function, or a recorded finding)"
         json.dump(rep, open(path, "w"), indent=1, default=str)
         tail = "" if confirmed else " no-failing-input-found"
         print("VIOLATION property=%s replay=%s obligation=%s%s" % (a.prop, path, o["id"], tail))
